@@ -45,8 +45,10 @@ def is_fixed_const(fx, t, want):
 
 
 def is_unit_clamp(fx, t):
-    """term is a call to clamp(x, -1, 1)"""
+    """term is a call to clamp(x, -1, 1) carried out on the 16.16 type: a clamp after the narrowing to 2.14 comes too late,
+    F2Dot14::from wraps values outside [-2, 2)"""
     return (t[0] == "call" and (t[4] or t[1] or "").endswith("::clamp") and len(t[2]) == 3
+            and (len(t) <= 5 or (t[5] or "tables::Fixed") == "tables::Fixed")
             and is_fixed_const(fx, t[2][1], -1) and is_fixed_const(fx, t[2][2], 1))
 
 
@@ -145,7 +147,8 @@ def t13_len(run, fx):
 def t13_clamp(run, fx):
     rule = "T13-CLAMP"
     run.rule(rule, "every value pushed to the result tuple in FvarTable::normalize is F2Dot14::from(v) where every definition of v reaching the "
-                   "push is clamp(_, Fixed(-1), Fixed(1)) or a call to a function all of whose returns are such a clamp")
+                   "push is clamp(_, Fixed(-1), Fixed(1)) - a clamp of the 16.16 value, before the narrowing conversion - or a call to a function all of "
+                   "whose returns are such a clamp")
     b = fx.body(NORMALIZE)
     if b is None:
         return run.anchor_missing(rule, NORMALIZE)
